@@ -148,8 +148,11 @@ CHECKS = {
              "histories (incl. scale=True scalers, binarizers), restore in a fresh interpreter, every continuation compared.",
         ref="7 (C19)"),
     "C20": dict(
-        text="Lean 4 proof (full, exact arithmetic): fit_perm / partialFit_perm (any row permutation gives the "
-             "identical state), shift_greedy, shift_ucb, shift_softmax_invariant, addXty_scale; relabelling of the whole bandit for "
+        text="Lean 4 proof (full, exact arithmetic): fit_perm_all / partialFit_perm_all (any row permutation gives the "
+             "identical state, context-free and linear policies: the Gram matrix and X'y are folds of a commutative addition), "
+             "radius_row_order / lsh_row_order (fit + partial fits on any permutations of the batches: every later query under "
+             "Radius with an exact metric / under LSHNearest returns the same outputs and issues the same sampler requests - the "
+             "neighbourhood is the set of rows within the radius / colliding in some table), shift_greedy, shift_ucb, shift_softmax_invariant, addXty_scale; relabelling of the whole bandit for "
              "every history and every policy combination: step_relabel / runHist_relabel / runOuts_relabel / relabel_end_to_end "
              "(a bandit constructed with renamed arms and driven through the renamed history rejects the same calls, returns the "
              "renamed arms and the expectations keyed by the new names in the same order, issues the same sampler requests and "
